@@ -129,3 +129,40 @@ func VerifC08_EmitCustomEvent() {
 	W.checkAll("emit")
 	vreach("end")
 }
+
+// two typed queries of one filter with different per-query targets, open at the same time,
+// after the filter was used for a Batch: each equals the ID-based query with that target
+func VerifC14_TypedQueriesAfterBatch() {
+	W := vShapeRel(1, 60, true, 0)
+	p0, p1 := W.e[0].h, W.e[1].h
+	f := NewFilter2[vChild, vPos](W.w)
+	_ = f.Batch(RelIdx(0, p0))
+	q1 := f.Query(RelIdx(0, p0))
+	q2 := f.Query(RelIdx(0, p1))
+	uf := NewUnsafeFilter(W.w, W.id[cR1], W.id[cA])
+	u1 := uf.Query(RelID(W.id[cR1], p0))
+	u2 := uf.Query(RelID(W.id[cR1], p1))
+	vcheck("count-q1-equals-id-based", q1.Count() == u1.Count())
+	vcheck("count-q2-equals-id-based", q2.Count() == u2.Count())
+	n1, n2, bad := 0, 0, 0
+	for q1.Next() {
+		n1++
+		if q1.GetRelation(0) != p0 {
+			bad++
+		}
+		for q2.Next() { // nested: all pairs
+			n2++
+			if q2.GetRelation(0) != p1 {
+				bad++
+			}
+		}
+		q2 = f.Query(RelIdx(0, p1))
+	}
+	q2.Close()
+	c1, c2 := u1.Count(), u2.Count()
+	u1.Close()
+	u2.Close()
+	vcheck("nested-iteration-visits-all-pairs", n1 == c1 && n2 == c1*c2 && bad == 0)
+	vcheck("unlocked", !W.w.IsLocked())
+	vreach("end")
+}
